@@ -637,7 +637,8 @@ def _markers_chunk(args):
     vmsim.install_primitives(sim)
     n = differ = undec = 0
     wit = None
-    boundary = [('_dbg_info_end', 'n'), ('_dbg_info_start', 'n')]
+    lost_wit = None
+    n_lost = 0
     for win in wins:
         win = list(win)
         k = len(win)
@@ -648,17 +649,42 @@ def _markers_chunk(args):
         for gaps in itertools.product((False, True), repeat=k - 1):
             if not any(gaps):
                 continue
+            # statement s<j> ends at the j-th boundary, s<j+1> starts there
             marked = []
+            nb = 0
             for i, w in enumerate(win):
                 marked.append(w)
                 if i < k - 1 and gaps[i]:
-                    marked += boundary
+                    marked += [('_dbg_info_end', f's{nb}'),
+                               ('_dbg_info_start', f's{nb + 1}')]
+                    nb += 1
             res = [r for r in run_optimize(hooks, marked) if r[0] == 'ok']
             if len(res) != 1:
                 undec += 1
                 continue
             n += 1
             a, b = plain[0][1], res[0][1]
+            # a marker may disappear only together with its partner (a
+            # whole statement removed); the assembler pairs them
+            m_in = [w for w in marked if w[0].startswith('_dbg')]
+            m_out = [w for w in b if w[0].startswith('_dbg')]
+            if m_in != m_out:
+                gone = list(m_in)
+                for w in m_out:
+                    if w in gone:
+                        gone.remove(w)
+                extra = [w for w in m_out if w not in m_in]
+                bad = list(extra)
+                for w in gone:
+                    other = ('_dbg_info_end' if w[0] == '_dbg_info_start'
+                             else '_dbg_info_start', w[1])
+                    if other not in gone:
+                        bad.append(w)
+                if bad or [w for w in m_out] != [w for w in m_in
+                                                 if w in m_out]:
+                    n_lost += 1
+                    if lost_wit is None or len(marked) < len(lost_wit[0]):
+                        lost_wit = (marked, list(b), bad)
             if any(isinstance(x, Opaque) for w in a + b for x in w):
                 continue        # folds: values are opaque here
             if [w for w in b if not w[0].startswith('_dbg')] == a:
@@ -668,7 +694,7 @@ def _markers_chunk(args):
                 differ += 1
                 if wit is None:
                     wit = (win, marked, a, b, w_)
-    return n, differ, undec, wit
+    return n, differ, undec, wit, (n_lost, lost_wit)
 
 
 def check_markers(ctx, pid):
@@ -710,6 +736,24 @@ def check_markers(ctx, pid):
     ctx.instance(rule, construct, sample={'windows_x_placements': n,
                                           'undecided': undec})
     ctx.floor('marker placements interpreted', n, 500)
+    n_lost = sum(p[4][0] for p in parts)
+    lws = sorted([p[4][1] for p in parts if p[4][1] is not None],
+                 key=lambda x: (len(x[0]), repr(x[0])))
+    rule_l = f'{pid}.optimizer-keeps-marker-pairs'
+    ctx.rule(rule_l, 'on the same marked windows, every `_dbg_info_start` / '
+             '`_dbg_info_end` pseudo-instruction of the input is still in '
+             'the optimised output, in order, unless its partner went with '
+             'it: the assembler pairs them and asserts on a lone marker, so '
+             'a pass that deletes one makes -g reject what plain accepts')
+    c_l = f'{f.file}:QvmCode.optimize:marker-pairs'
+    ctx.instance(rule_l, c_l, sample={'windows_x_placements': n,
+                                      'placements_losing_a_marker': n_lost})
+    if lws:
+        marked, b, bad = lws[0]
+        ctx.finding(rule_l, c_l,
+                    f'{n_lost} placement(s) lose or reorder a lone debug '
+                    f'marker; e.g. {marked} is optimised to {b}: {bad} has '
+                    f'no partner left', f.file, f.line)
     if wit is not None:
         win, marked, a, b, w_ = wit
         ctx.finding(rule, construct,
